@@ -14,6 +14,29 @@ DiamondMods == {"a", "b", "c", "d"}
 DiamondImports == [a |-> <<"b", "c">>, b |-> <<"d">>, c |-> <<"d">>, d |-> <<>>]
 DiamondTargets == <<"d", "a", "c", "b">>
 
+\* twins: a imports two leaves that are written from the same family of contents - what b holds today c may hold
+\* tomorrow (the contents of two files can be exchanged); the leaves start with different contents
+TwinsMods == {"a", "b", "c"}
+TwinsImports == [a |-> <<"b", "c">>, b |-> <<>>, c |-> <<>>]
+TwinsTargets == <<"a", "b", "c">>
+TwinsInit == /\ src = [m \in Mods |-> IF m = "c" THEN 2 ELSE 1]
+             /\ mtime = [m \in Mods |-> 1]
+             /\ ast = [m \in Mods |-> None] /\ sym = [m \in Mods |-> None] /\ parser = "none"
+             /\ out = [m \in Mods |-> None]
+             /\ ntorn = 0
+             /\ op = [name |-> "init"]
+
+\* the contents of two files exchanged in one step (files renamed across each other, a directory restored from a
+\* backup, ...): both get a new modification time
+Swap(m1, m2) ==
+  /\ m1 # m2 /\ src[m1] # src[m2] /\ MaxT = 0
+  /\ src' = [src EXCEPT ![m1] = src[m2], ![m2] = src[m1]]
+  /\ mtime' = [mtime EXCEPT ![m1] = mtime[m1] + 1, ![m2] = mtime[m2] + 1]
+  /\ op' = [name |-> "swap", m1 |-> m1, m2 |-> m2]
+  /\ UNCHANGED <<ast, sym, parser, out, ntorn>>
+\* only the two leaves share a family of contents
+TwinsNext == Next \/ Swap("b", "c")
+
 V2 == 1..2
 Body2 == [v \in V2 |-> v]
 V3 == 1..3
